@@ -116,7 +116,7 @@ func (env *Env) findSummary(fn *ssa.Function) summaryFn {
 
 // runBody executes fn's body without consulting the summary table.
 func (in *Interp) runBody(fn *ssa.Function) Value {
-	fr := &frame{in: in, fn: fn, locals: map[ssa.Value]Value{}}
+	fr := &frame{in: in, fn: fn, locals: newLocals(in.env.info(fn))}
 	return fr.run(fn.Blocks[0])
 }
 
